@@ -116,9 +116,11 @@ func (vm *VM) GetLocals(locals []Object) []Object {
 // goroutine.
 func (vm *VM) Abort() {
 	verifSync("abort.enter", vm)
-	vm.pool.abort()
-	verifSync("abort.mid", vm)
+	// Set the flag before aborting the child VMs: a child VM registered in the
+	// pool after the children are aborted sees the flag of its root VM.
 	vm.abort.Store(1)
+	verifSync("abort.mid", vm)
+	vm.pool.abort()
 	verifSync("abort.exit", vm)
 }
 
@@ -139,7 +141,11 @@ func (vm *VM) Run(globals Object, args ...Object) (Object, error) {
 
 	vm.err = nil
 	verifSync("run.enter", vm)
-	vm.abort.Store(0)
+	if vm.pool.root == nil || vm.pool.root == vm {
+		// A child VM of an Invoker must not forget an abort requested between
+		// its acquisition and its run, its flag is reset when it is released.
+		vm.abort.Store(0)
+	}
 	verifSync("run.reset", vm)
 	vm.initGlobals(globals)
 	vm.initLocals(args)
@@ -1717,6 +1723,10 @@ func (v *vmPool) _acquire(vm *VM, cf *CompiledFunction) *VM {
 		v.vms = make(map[*VM]struct{})
 	}
 	v.vms[vm] = struct{}{}
+	if v.root.Aborted() {
+		// the root VM was aborted before this child VM is registered
+		vm.abort.Store(1)
+	}
 
 	return vm
 }
